@@ -674,8 +674,8 @@ def _install_ops():
 _install_ops()
 
 SUBCHECKS = {
-    "xsec": Given(xsec_strategy, run_xsec, quick=2000, thorough=60000),
-    "segments": Given(segments_strategy, run_segments, quick=2000, thorough=60000),
-    "spectrum": Given(spectrum_strategy, run_spectrum, quick=8000, thorough=240000),
-    "hist": Machine(Hist, quick=800, thorough=30000, steps=(20, 30), params=hist_params),
+    "xsec": Given(xsec_strategy, run_xsec, quick=2000, thorough=30000),
+    "segments": Given(segments_strategy, run_segments, quick=2000, thorough=30000),
+    "spectrum": Given(spectrum_strategy, run_spectrum, quick=8000, thorough=120000),
+    "hist": Machine(Hist, quick=800, thorough=10000, steps=(20, 30), params=hist_params),
 }
